@@ -144,6 +144,14 @@ def check_layout(case, stats):
     try:
         o2 = outcome(None, dflt, scanner=gh.TokenScanner(path))
         same(case, "T2 loading the document from a file (TokenScanner(path))", base, o2)
+        # a scanner made for the file keeps delivering that file even when the name is gone by the time it is parsed
+        sc = gh.TokenScanner(path)
+        os.rename(path, path + ".moved")
+        try:
+            o2b = outcome(None, dflt, scanner=sc)
+        finally:
+            os.rename(path + ".moved", path)
+        same(case, "T2 loading the document from a scanner whose file was renamed between making the scanner and parsing", base, o2b)
         if o2["delivered"] != base["delivered"]:
             raise Violation(case, "T2 loading the document from a file delivers other line tokens than the string: %r vs %r" % (o2["delivered"][-4:], base["delivered"][-4:]))
         if dflt == "en":
@@ -156,6 +164,32 @@ def check_layout(case, stats):
                 want = [{"parseError": {"source": {"uri": path, "location": ({"line": l, "column": c} if c is not None else {"line": l})}, "message": m}} for l, c, m in base["errors"]]
             if out != want:
                 raise Violation(case, "T2 loading through source_event + GherkinEvents differs from parsing the string, %s" % diff_text(out, want, "stream", "string"))
+        # several files listed at once, all source events held before the first is processed
+        if dflt == "en":
+            other = path + ".other.feature"
+            with open(other, "w", encoding="utf8") as f:
+                f.write("Feature: another file\n Scenario: o\n  Given o\n")
+            try:
+                evs = list(gh.SourceEvents([path, other]).enum())
+                out = list(gh.GherkinEvents(gh.GherkinEvents.Options(True, True, True)).enum(evs[0]))
+                if out != want:
+                    raise Violation(case, "T2 loading through SourceEvents (all events collected first) differs from parsing the string, %s" % diff_text(out, want, "stream", "string"))
+            finally:
+                os.unlink(other)
+        # the file is rewritten in place with another document of the same length and its time stamps are put back (cp -p, rsync -t):
+        # what is parsed is what the file holds NOW
+        flipped = "".join(chr(ord(c) ^ 1) if c in "xyzw" else c for c in text)
+        if flipped != text and len(flipped.encode("utf8")) == len(text.encode("utf8")):
+            st_ = os.stat(path)
+            outcome(None, dflt, scanner=gh.TokenScanner(path))
+            with open(path, "r+", encoding="utf8", newline="") as f:
+                f.write(flipped)
+            os.utime(path, ns=(st_.st_atime_ns, st_.st_mtime_ns))
+            try:
+                same(case, "T2 loading a file that was rewritten in place (same size, same time stamps) since it was last parsed", outcome(flipped, dflt), outcome(None, dflt, scanner=gh.TokenScanner(path)))
+            finally:
+                with open(path, "w", encoding="utf8", newline="") as f:
+                    f.write(text)
         # the same file below a deep directory: a path longer than any single-name limit (but well below PATH_MAX)
         deep = os.path.join(*(["d" * 60] * 6))
         os.makedirs(deep, exist_ok=True)
